@@ -196,6 +196,7 @@ def r_recover_flow(rep, prog):
             on_huge = any(c[0] == "call" and c[1] == "llfree::lower::HugeEntry::huge" and pol is True for c, pol in conds)
             rep.check(v == 0 and on_huge, rule, "recover|write|fill", "fill(false) on the bitfield of a huge-marked entry",
                       "unexpected fill: value %s, on huge arm: %s" % (v, on_huge), t["span"])
+            _repair_guard(rep, rule, b, tm, bi, "fill", t["span"])
         elif name == "llfree::atomic::Atom::store":
             v = tm.operand(t["args"][1])
             ok = v[0] == "call" and v[1] == "llfree::lower::HugeEntry::new_with" and v[2][0][0] == "call" and \
@@ -204,6 +205,7 @@ def r_recover_flow(rep, prog):
             same_entry = bool(loads) and recv == T.canon(tm.operand(loads[0][1]["args"][0]))
             rep.check(ok and same_entry, rule, "recover|write|store", "entry := new_with(count_zeros(its bitfield))",
                       "the recovered counter is %s stored into %s" % (T.show(v), T.show(tm.operand(t["args"][0]))), t["span"])
+            _repair_guard(rep, rule, b, tm, bi, "store", t["span"])
         else:
             rep.violation(rule, "recover|write|%s" % name, "recover performs an unreviewed write through %s" % name, t["span"])
     rep.floor(rule, "writes in recover", n_w, 2)
@@ -229,6 +231,34 @@ def r_recover_flow(rep, prog):
             ok = accepted
         rep.check(ok, rule, "recover|loop-exhaustive|bb", "loop over %s ends by exhaustion (or at the managed range's end)" % src,
                   "recovery loop can stop early: " + why, b.term(h)["span"])
+
+
+def _repair_guard(rep, rule, b, tm, bi, what, span):
+    """A repair may be skipped only when there is nothing to repair: the only value comparison that controls it is
+    `counted zeros != expected` (entry.free() resp. Bitfield::LEN) on its true edge."""
+    bad = []
+    for s, d in lib.controlling_edges(b, bi):
+        c = tm.operand(b.term(s)["discr"])
+        if c[0] != "bin" or not T.mentions_call(c, "llfree::bitfield::Bitfield::count_zeros"):
+            continue
+        pol = lib.bool_edge_polarity(b, s, d)
+        cmp_ = lib.normalize_cmp(c)
+        if not cmp_ or pol is None:
+            bad.append(T.show(c)[:80])
+            continue
+        lhs, rel, rhs = cmp_ if pol else lib.negate_rel(cmp_)
+        sides = [T.canon(T.strip_casts(lhs)), T.canon(T.strip_casts(rhs))]
+        zeros = [x for x in sides if x[0] == "call" and x[1] == "llfree::bitfield::Bitfield::count_zeros"]
+        other = [x for x in sides if not (x[0] == "call" and x[1] == "llfree::bitfield::Bitfield::count_zeros")]
+        LEN = None
+        if what == "fill":
+            want = len(other) == 1 and other[0][0] == "c"
+        else:
+            want = len(other) == 1 and other[0][0] == "call" and other[0][1] == "llfree::lower::HugeEntry::free"
+        if not (rel == "ne" and len(zeros) == 1 and want):
+            bad.append("%s %s %s" % (T.show(lhs)[:50], rel, T.show(rhs)[:50]))
+    rep.check(not bad, rule, "recover|repair-guard|%s" % what, "the repair runs whenever the counted zeros differ from the recorded state",
+              "the repairing %s is executed only if `%s`: a stale counter/bitfield left by a crash is not repaired" % (what, "; ".join(bad)), span)
 
 
 def r_init_dispatch(rep, prog):
